@@ -10,6 +10,18 @@ CLAIMS = {
          "Unbounded theorems (Props/Properties_C16.v): for every day count >= 0 adfDays2Date yields the Gregorian date that many days after 1978-01-01; for every valid date-time from 1978 on adfTime2AmigaTime yields its true day number, minutes and ticks; the two are mutually inverse; the tm->DateTime mapping of adfGiveCurrentTime composes to the real date. The functions are regenerated from adf_util.c by tools/c2v.py on every run, so the theorems are re-proved against what the code says now; compiled C and generated Gallina are additionally compared on every day 0..45000 and every date 1978..2100 (thorough), and stamps are read back from images at pinned instants.",
          "Trusted: Coq kernel; tools/c2v.py + CPrelude.v semantics of the C subset (unbounded signed ints, C-locale); extraction (ExtrOcamlBasic) and OCaml driver for the differential run; harness. localtime() itself is not modelled (TZ=UTC in the harness).",
          "Coq proof over a model regenerated from source (translator) + translation validation", "DESIGN.md section 5 C16"),
+ "C15": ("proof",
+         "Theorems about the regenerated adfToUpper/adfIntlToUpper/adfGetHashValue (Props/Properties_C15.v): the folding tables are the AmigaDOS ones for all 256 bytes; for every byte string the library's hash is the AmigaDOS hash of the folded first 30 bytes; equal folded names share a slot; the slot is < 72; long names hash like their stored 30-byte form. The directory-level half (which entry a name finds; duplicates refused; listed names re-open) is decided per explored case on the real API over (N,M) name pairs on all six flavours, with the Coq spec (extracted) cross-checking the oracle.",
+         "Leaf theorems: unbounded, over the translator tie. Lookup/duplicate behaviour of adfNameToEntryBlk/adfCreateEntry/adfRenameEntry: exploration against the spec relation same_name, not a theorem yet. toupper() assumed C-locale.",
+         "Coq proof over regenerated leaf functions + differential API exploration against the Coq spec", "DESIGN.md section 5 C15"),
+ "C13": ("proof",
+         "Theorems (Props/Properties_C13.v): exact characterisation of the regenerated adfReadBlock/adfWriteBlock guards (an access reaches the device iff first <= nSect+first <= last without 32-bit wrap); for EVERY program in the I/O monad that uses the volume funnel, every device access of its run lies inside [first,last], for every device behaviour; partition block ranges computed by adfCreateVol/adfMountHd (regenerated slices) are pairwise disjoint, outside the RDB area and agree between creation and mount; the set of functions that touch device primitives directly equals the expected funnel (regenerated call graph, reflexivity). Correspondence: guard calls C vs generated; partitioned disks with random histories per partition with every logged device read/write checked; out-of-range pointer images.",
+         "The step from 'every API operation is a program of the monad that only uses Rd/Wr' to the C code is the funnel theorem (call graph from clang's AST) plus the system-level runs; models of the individual operations are not needed for this property. Geometry assumed < 2^31 blocks.",
+         "Coq proof (any-program invariant over regenerated guards) + translation validation + device-log exploration", "DESIGN.md section 5 C13"),
+ "C12": ("proof",
+         "Theorems (Props/Properties_C12.v): with the volume flag set (forced by adfMount when the device is read-only: regenerated slice) no program of the I/O monad - volume level or RDB writers - produces a device write, for every device behaviour; a refused write returns non-zero; the only functions that can reach a device write are the guarded funnel (regenerated call graph). The 'every mutating call reports failure' half is decided by the complete matrix call x {device ro, mount ro, both} x flavour x device kind on the real API (return value, empty write log, identical image), plus random histories on read-only mounts.",
+         "No-write: unbounded theorem over the translator tie + funnel. Failure reporting of each API call: exhaustive over the call matrix, not a theorem (the operation models are not part of this property's proof). fopen mode of dump devices not modelled.",
+         "Coq proof (any-program invariant over regenerated guards) + exhaustive call matrix on the implementation", "DESIGN.md section 5 C12"),
 }
 
 def main():
